@@ -32,6 +32,9 @@ def check(run):
         f, k = projk.guards_and_block(run, repo, K.TC_U, name, signed=signed, loop_form=False)
         K.product_sites(run, f)
         kinds.check_function(run, repo, f)
+    # post-selection hands the kernel the requested stabilizer phase: (2*outcome + operator phase) mod 4 (a phase of the tableau)
+    from .C14 import postselect_site
+    postselect_site(run, repo)
     # phase kinds at the state / map constructors and sign writers
     sites = [(K.PY_S, n) for n in ('random_pauli_map', 'random_clifford_map', 'random_bit_state_gs_ps', 'random_bit_state',
                                    'one_state', 'StabilizerState.get_prob', 'StabilizerState.postselect',
